@@ -145,6 +145,14 @@ def judge_roundtrip(ctx, case):
                 break
     else:
         msgs = gen_list(rng, cfg, enc, case['n'], case['big'])
+        if case['salt'] % 3 == 0 and len(ref.carriers_of(cfg)) >= 2:
+            # two records with exactly the same keys and very different sizes, one after the other (both orders): what the
+            # first needed - how many carriers - must not be remembered for the second
+            small = {'MTI': '1240', 'PDS0005': 'abc', 'PDS0010': 'de', 'PDS0148': 'f'}
+            big = {'MTI': '1240', 'PDS0005': 'A' * 600, 'PDS0010': 'B' * 610, 'PDS0148': 'C' * 300}
+            at = rng.randint(0, len(msgs))
+            msgs[at:at] = [small, big, dict(small), dict(big)] if case['salt'] % 2 else [big, small, dict(big)]
+            ctx.count('files holding records with the same keys and other sizes next to each other')
     ctx.case_done(case, nontrivial=bool(msgs))
     if not msgs:
         return
@@ -184,8 +192,32 @@ def judge_roundtrip(ctx, case):
                                                             'first_diff': next((i for i, (a, b) in enumerate(zip(data, want_file)) if a != b), None)})
         return
 
+    style = ('list', 'list', 'next_then_for', 'for_break_for')[case['salt'] % 4]
+    ctx.seen('ways the reader was walked', style)
+
     def read():
-        return list(m.IpmReader(io.BytesIO(data), encoding=enc, iso_config=cfg, blocked=blocked))
+        r = m.IpmReader(io.BytesIO(data), encoding=enc, iso_config=cfg, blocked=blocked)
+        if style == 'list':
+            return list(r)
+        out = []
+        if style == 'next_then_for':
+            first = next(r, None)
+            if first is None:
+                return out
+            out.append(first)
+            for rec in r:
+                out.append(rec)
+            return out
+        broke = False
+        for rec in r:
+            out.append(rec)
+            if len(out) == 2:
+                broke = True
+                break
+        if broke:
+            for rec in r:
+                out.append(rec)
+        return out
     kind, back = ctx.call(read, budget=400000 + 6000 * len(msgs) + 100 * len(data))
     ctx.count('IpmReader files')
     if kind != 'ok':
@@ -605,6 +637,10 @@ def require(m):
         reasons.append('no cold-start trial ran')
     if not c.get('files with a whole block of fill bytes inside the data') and not m['violations']:
         reasons.append('no file with a whole block of fill bytes inside the data')
+    if not c.get('files holding records with the same keys and other sizes next to each other') and not m['violations']:
+        reasons.append('no file with same-keys-other-sizes neighbours')
+    if not {'list', 'next_then_for', 'for_break_for'} <= set(m['classes'].get('ways the reader was walked', ())) and not m['violations']:
+        reasons.append('reader walking styles not all used')
     if not c.get('composed reader runs'):
         reasons.append('composed readers never run')
     if not c.get('round trips of files over 1 MiB'):
